@@ -125,3 +125,15 @@ V('C19', 'falsy-config-fields-dropped', 'edb/schema/utils.py', 'edb.schema.utils
   '                if not (typ.secret and not with_secrets) and not typ.protected\n', '                if not (typ.secret and not with_secrets) and not typ.protected\n                if getattr(val, ptr)\n', 'C19.R8', 'composite-fields-kept')
 V('C19', 'neg-none-fields-skipped', 'edb/schema/utils.py', 'edb.schema.utils.const_ast_from_python',
   '                if not (typ.secret and not with_secrets) and not typ.protected\n', '                if not (typ.secret and not with_secrets) and not typ.protected\n                if getattr(val, ptr) is not None or True\n', None)
+V('C19', 'multi-setting-falsy-element-dropped', 'edb/ir/staeval.py', 'edb.ir.staeval.evaluate_config_set',
+  '        if value is None:\n', '        if not value:\n', 'C19.R9', 'evaluate_config_set:empty-only-for-None')
+V('C19', 'chained-spec-type-by-setting-membership', 'edb/server/config/spec.py', 'edb.server.config.spec.ChainedSpec.get_type_by_name',
+  '''        try:
+            return self._top.get_type_by_name(name)
+        except KeyError:
+            return self._base.get_type_by_name(name)''', '''        if name in self._top:
+            return self._top.get_type_by_name(name)
+        else:
+            return self._base.get_type_by_name(name)''', 'C19.R9', 'ChainedSpec.get_type_by_name:routes-by-type-table')
+V('C19', 'iso-fraction-sign-from-int-seconds', 'edb/ir/statypes.py', 'edb.ir.statypes.Duration._parse_iso8601',
+  '            value += int(ms) * secsign\n', "            value += int(ms) if int(m['seconds'] or 0) * secsign >= 0 else -int(ms)\n", 'C19.R9', 'fraction-sign-from-text')
